@@ -4,29 +4,6 @@ from framework import *
 from props_codec import *
 
 
-def proofs_or_violation(ctx, files):
-    """builds the property's theorem files; a failed obligation is recorded and
-    reported after the search for a failing input (done by the caller's streams)"""
-    ob, di, detail, ok, lg = check_proofs(ctx, files)
-    ctx.proof = {'obligations': ob, 'discharged': di, 'detail': detail, 'ok': ok}
-    if not ok:
-        ctx.proof['failure'] = getattr(ctx, 'proof_failure', None)
-    return ok
-
-
-def finish_with_proofs(ctx, extra=None):
-    p = ctx.proof
-    if not p['ok'] and not any(not v[2].get('no_failing_input') for v in ctx.violations):
-        ctx.violate('proof', 'proof obligations of %s no longer check: %s' % (ctx.pid, json.dumps(p.get('failure'))[:300]),
-                    {'no_failing_input': True, 'theorem_files': [d['file'] for d in p['detail'] if d['status'] != 'proved'],
-                     'errors': p.get('failure')})
-    ex = {'proof_detail': p['detail']}
-    if extra:
-        ex.update(extra)
-    return finish(ctx, 'proof', p['obligations'], p['discharged'],
-                  'make -C /verif/coq ' + ' '.join(d['file'][:-2] + '.vo' for d in p['detail']), ex)
-
-
 # ------------------------------------------------------------------ C03 -----
 def check_C03(ctx):
     proofs_or_violation(ctx, ['Properties_C03.v'])
@@ -1250,7 +1227,8 @@ def check_C20(ctx):
     return finish_with_proofs(ctx, {'values_swept_in_cxx': exhaustive})
 
 
-CHECKS = {'C01': check_C01, 'C02': check_C02, 'C07': check_C07, 'C09': check_C09, 'C16': check_C16, 'C17': check_C17, 'C18': check_C18, 'C20': check_C20, 'C08': check_C08, 'C10': check_C10, 'C11': check_C11, 'C03': check_C03, 'C04': check_C04, 'C05': check_C05, 'C06': check_C06}
+from props_objs import check_C12, check_C13, check_C15
+CHECKS = {'C12': check_C12, 'C13': check_C13, 'C15': check_C15, 'C01': check_C01, 'C02': check_C02, 'C07': check_C07, 'C09': check_C09, 'C16': check_C16, 'C17': check_C17, 'C18': check_C18, 'C20': check_C20, 'C08': check_C08, 'C10': check_C10, 'C11': check_C11, 'C03': check_C03, 'C04': check_C04, 'C05': check_C05, 'C06': check_C06}
 
 
 def run(pid, tier, seed, replay=None):
